@@ -4,6 +4,7 @@ import TunnoxModel.Spec.C04
 Line protocol for C04 (see harness/c04/main.go):
   open pl <ok|junk|empty> maps <k> (<id> <listen> <target> <secret|-> <a|i> <rev 0|1> <exp 0|1|2>)*
        conn <hs 0|1|2> <cid> req <mid|-> <secret|-> <token|-> ts <none | bridge <mid> <served> | remote <mid> | local <mid>>
+       [late <bridge <mid> | route <mid> | remote <mid>>]      (only with ts none: what appears while the request polls)
   obs: ack <none|ok|fail> att <none|src|tgt|fwd> data <0|1> ret <switch|err|pending>
 The clock is 1000; exp 1 = expired at 500, exp 2 = expires at 2000.  This node is node-A, the other node-B.
 `ret` is compared between model and implementation but is not part of the property.
@@ -32,12 +33,23 @@ structure Case where
   id : ConnIdent
   req : Req
   ts : TunnelState
+  late : Late
 
 def parseTs : List String → Option TunnelState
   | ["none"] => some .none
   | ["bridge", m, sv] => some (.bridge m (sv == "1"))
   | ["remote", m] => some (.remote m "node-B")
   | ["local", m] => some (.remote m "node-A")
+  | _ => none
+
+/-- what appears while the request polls: `late bridge <mid>` = the listen client of <mid> opens the tunnel on
+this node (bridge + route to node-A), `late route <mid>` = only a route naming this node, `late remote <mid>` = a
+route naming node-B.  Absent = nothing appears. -/
+def parseLate : List String → Option Late
+  | [] => some .none
+  | ["late", "bridge", m] => some (.route m "node-A" true)
+  | ["late", "route", m] => some (.route m "node-A" false)
+  | ["late", "remote", m] => some (.route m "node-B" false)
   | _ => none
 
 def parseCase : List String → Option Case
@@ -50,15 +62,16 @@ def parseCase : List String → Option Case
       let id : ConnIdent ← (if hs == "0" then some ⟨false, 0, false⟩
         else if hs == "1" then some ⟨true, cid, true⟩
         else if hs == "2" then some ⟨true, 0, false⟩ else none)
-      let ts ← parseTs tsToks
+      let ts ← parseTs (tsToks.takeWhile (· != "late"))
+      let late ← parseLate (tsToks.dropWhile (· != "late"))
       let w : World := { mappings := ms, now := 1000, nodeID := "node-A" }
       if pl == "ok" then
-        pure ⟨w, id, ⟨true, undash mid, "verif-tunnel-01", undash sec, undash tok⟩, ts⟩
+        pure ⟨w, id, ⟨true, undash mid, "verif-tunnel-01", undash sec, undash tok⟩, ts, late⟩
       else if pl == "junk" then
-        pure ⟨w, id, ⟨false, "", "", "", ""⟩, ts⟩
+        pure ⟨w, id, ⟨false, "", "", "", ""⟩, ts, late⟩
       else if pl == "empty" then
         -- an empty payload names the empty tunnel id: it addresses no existing tunnel
-        pure ⟨w, id, ⟨true, "", "", "", ""⟩, .none⟩
+        pure ⟨w, id, ⟨true, "", "", "", ""⟩, .none, .none⟩
       else none
     | _ => none
   | _ => none
@@ -83,8 +96,8 @@ def runModel (ts : List String) : String :=
   if ts == ["e2e"] then "secret set src ok tgt ok data 1" else
   match parseCase ts with
   | some c =>
-    let o := openTunnel c.w c.id c.req c.ts
-    let ob := o.obs c.ts
+    let o := openTunnelDyn c.w c.id c.req c.ts c.late
+    let ob := o.obsDyn c.ts c.late
     s!"ack {ackStr ob.ack} att {attStr ob.att} data {if ob.data then "1" else "0"} ret {retStr o.ret}"
   | none => "bad-case"
 
@@ -92,7 +105,7 @@ def runHolds (caseToks obsToks : List String) : String :=
   -- `e2e` (legitimate parties are still served) is compared with the model line only; it is not the property
   if caseToks == ["e2e"] then boolStr (obsToks.head? == some "secret") else
   match parseCase caseToks, parseObs obsToks with
-  | some c, some o => boolStr (holds c.w c.id c.req c.ts o)
+  | some c, some o => boolStr (holdsDyn c.w c.id c.req c.ts c.late o)
   | _, _ => "false"
 
 end Tunnox.Drv.C04
